@@ -106,7 +106,7 @@ Print Assumptions C16_stream_agrees_with_buffer.
 
 (* ---- the width in a constructor's name is the width in its body (Gen/Twins.v, read from internal/encoder/compiler.go and
    internal/decoder/compile.go on every run): the 20 (u)int<N>[String]Code constructors build an IntCode / UintCode of
-   bitSize N, the 10 compile(U)int<N> build a decoder that stores through *(*(u)int<N>)(p) ---- *)
+   bitSize N, the 10 compile(U)int<N> build a decoder that stores through a pointer to (u)int<N> ---- *)
 From GJ Require Import Gen.Twins.
 Theorem C16_width_constructors_carry_their_width : width_constructors_off = nil /\ width_constructors = 30%nat.
 Proof. split; reflexivity. Qed.
